@@ -619,6 +619,11 @@ def evaluate(ctx, runs, colors, use_fuzzy=True):
         ctx.cov["evaluations"] += 1
         what = "wtf %s" % " ".join(json.dumps(a) for a in r.argv)
         hit = lambda cls, msg, **x: ctx.hit(cls, "%s: %s [%s]" % (cls, msg, what[:400]), replay_of(r, **x))
+        if getattr(ctx, "c17_facts_stale", False):
+            def hit(cls, msg, _r=r, _what=what, **x):
+                has_esc = _r.db_content is None or b"\\u001b" in _r.db_content or b"\\x1b" in _r.db_content or ESC in _r.db_content
+                if cls == "cli-crash" or (cls == "cli-escape-with-no-color" and not has_esc):
+                    ctx.hit(cls, "%s: %s [%s]" % (cls, msg, _what[:400]), replay_of(_r, **x))
         # ---- crash
         if r.timed_out or r.rc != 0 or PANIC_RE.search(r.out) or PANIC_RE.search(r.err) or e.get("panic"):
             hit("cli-crash", "exit status %s%s%s" % (r.rc, " (timeout)" if r.timed_out else "", " in-process: " + e.get("panic", "") if e.get("panic") else ""))
@@ -997,7 +1002,12 @@ def run(ctx):
     colors = ctx.facts.get("cli.colors")
     if not isinstance(opts, dict) or not isinstance(colors, dict) or not all(k in colors for k in ("bold", "reset", "cyan", "yellow")):
         ctx.oblige("translator:cli-facts", "translator", False, "facts cli.searchOptions / cli.colors missing: %r %r" % (opts, colors))
-        return
+        # The property is no longer shown to hold; the search for a failing input goes on with the values these facts had when
+        # the file below was written (HEAD of the unchanged tree).  Since they may no longer describe the code, only monitors
+        # that do not depend on them may speak: crashes, and ESC bytes on stdout of a colourless run over a database without any.
+        last = json.load(open(os.path.join(os.path.dirname(os.path.abspath(__file__)), "c17_lastgood_facts.json")))
+        opts, colors = last["cli.searchOptions"], last["cli.colors"]
+        ctx.c17_facts_stale = True
     quick = ctx.tier == "quick"
     # the binary is copied so that a concurrent rebuild cannot change it under the run
     mine = os.path.join(ctx.rundir, "wtf")
